@@ -140,7 +140,8 @@ Section Live.
 
   Lemma ei_type_std e : ei_type (ex_module e) (ex_qualname e) = std_type e.
   Proof.
-    unfold ei_type, std_type, M_plain_mods. cbn [existsb]. rewrite orb_false_r. reflexivity.
+    unfold ei_type, std_type, M_plain_mods. destruct (ex_module e); [|reflexivity].
+    cbn [existsb]. rewrite orb_false_r. reflexivity.
   Qed.
 
   (* the traceback ExceptionInfo holds: the interpreter's entries and type, its own message *)
